@@ -11,7 +11,7 @@ INTERNAL = ["n1", "n2", "n3", "n4", "n5", "n6", "anc", "root x"]
 LENGTHS = ["0.5", "1", "2.0", "0.25", "1.75", "3", "0.125", "5e-1", "0", "1.5E0", "12", "0.375"]
 PLAIN_COMMENTS = ["note", "a comment", " spaced ", "x=1", "100%", "R", "nested [inner] text", ""]
 META_COMMENTS = ["&k=1", "&support=0.5,pp=1", "&range={1,2}", '&name="q"', "&&NHX:S=human:E=1.1", "&flag=true", "&odd", "& R", "&!color=#ff0000"]
-WEIGHTS = ["&W 0.5", "&W 1/4", "&w 2", "&W 3/2", "&W 1"]
+WEIGHTS = ["&W 0.5", "&W 1/4", "&w 2", "&W 3/2", "&W 1", "&W 0", "&W 0/5", "&W 0.0", "&w 0", "&W 0", "&W 1.0"]     # an explicit ZERO weight is a weight
 
 
 def kw(rng, word):
